@@ -1393,6 +1393,9 @@ func (e *nestEnv) compareArray(path string, a *atree.Array, c *node) bool {
 	if a.Type() != atree.TypeInfo(hx.TI(c.ty)) {
 		e.violation("C07", fmt.Sprintf("%s (container %d): type info %v read back, %d was given at creation", path, c.h, a.Type(), c.ty))
 		e.violation("C01", fmt.Sprintf("%s (array %d): Type() is %v, the history says %d", path, c.h, a.Type(), c.ty))
+		if strings.HasPrefix(path, "reloaded") {
+			e.violation("C10", fmt.Sprintf("%s (container %d): the type set through the nested handle was not persisted by the commit: %v read back, %d set", path, c.h, a.Type(), c.ty))
+		}
 		return false
 	}
 	if a.Count() != uint64(len(c.elems)) {
@@ -1420,6 +1423,9 @@ func (e *nestEnv) compareMap(path string, m *atree.OrderedMap, c *node) bool {
 	if m.Type() != atree.TypeInfo(hx.TI(c.ty)) {
 		e.violation("C07", fmt.Sprintf("%s (container %d): type info %v read back, %d was given at creation", path, c.h, m.Type(), c.ty))
 		e.violation("C02", fmt.Sprintf("%s (map %d): Type() is %v, the history says %d", path, c.h, m.Type(), c.ty))
+		if strings.HasPrefix(path, "reloaded") {
+			e.violation("C10", fmt.Sprintf("%s (container %d): the type set through the nested handle was not persisted by the commit: %v read back, %d set", path, c.h, m.Type(), c.ty))
+		}
 		return false
 	}
 	if m.Count() != uint64(len(c.kv)) {
@@ -1548,5 +1554,9 @@ func (e *nestEnv) opCommitReload() {
 	e.compareValue("reloaded", rootVal, sval{child: e.root})
 	if len(e.st.Violations) > n {
 		e.st.Violations[n].What = "after commit, a fresh storage does not show what was done through child handles: " + e.st.Violations[n].What
+		// whatever the container-level property, a commit that does not make the state durable is C03
+		v := e.st.Violations[n]
+		v.Property = "C03"
+		e.st.Violations = append(e.st.Violations, v)
 	}
 }
